@@ -202,7 +202,45 @@ def directed_cases(tier):
     out = [{"threads": 6, "tuples": tuples, "iters": 150000 if tier == "quick" else 600000}]
     if tier != "quick":
         out.append({"threads": 12, "tuples": tuples[::-1], "iters": 300000})
+    # ... while another thread of the interpreter RECORDS (a writer rolling over files every millisecond uses the same
+    # calendar code for its directory names)
+    out.append({"threads": 4, "tuples": tuples, "iters": 60000 if tier == "quick" else 300000, "writer": True,
+                "writes": 2500 if tier == "quick" else 10000})
+    # the calendar: every day from 1970 to 2500 and the turn of every later century up to 9999, at two rates
+    out.append({"calendar": [0, (2500 - 1970) * 366]})
     return out
+
+
+def _run_calendar(case, res):
+    lo, hi = case["calendar"]
+    days = list(range(lo, hi))
+    for y in range(2500, 10000, 100):
+        d0 = (datetime.datetime(y, 1, 1) - EPOCH).days
+        days += list(range(d0 + 55, d0 + 62)) + [d0 - 1, d0, d0 + 364, d0 + 365]
+    days = [x for x in days if x * 86400 + 86399 < YEAR9999]
+    n_ev = 0
+    for (n, d) in ((1, 1), (200, 3)):
+        for day in days:
+            for sec in (day * 86400, day * 86400 + 86399):
+                k = -((-sec * n) // d)
+                es = (k * d) // n
+                rc, fields, _p = c_rational(k, n, d)
+                dt = EPOCH + datetime.timedelta(seconds=es)
+                n_ev += 1
+                if rc != 0 or fields != (dt.year, dt.month, dt.day, dt.hour, dt.minute, dt.second):
+                    res.fail("rational", "k=%d n=%d d=%d got %r expected %s (calendar sweep)" % (k, n, d, fields, dt))
+                    res.evaluations = n_ev
+                    return
+    import digital_rf
+    for day in days[::7]:
+        k = day * 86400 + 43200
+        pdt, _pps = digital_rf.get_unix_time(k, 1, 1)
+        if pdt != EPOCH + datetime.timedelta(seconds=k):
+            res.fail("python-get_unix_time", "k=%d n=1 d=1 got %s expected %s (calendar sweep)" % (k, pdt, EPOCH + datetime.timedelta(seconds=k)))
+            break
+    res.evaluations = n_ev
+    res.nontrivial = True
+    res.cls("calendar-sweep")
 
 
 def _run_threads(case, res):
@@ -216,12 +254,43 @@ def _run_threads(case, res):
         eps = rem * PS // n
         exp.append(((EPOCH + datetime.timedelta(seconds=es)).replace(microsecond=eps // 10 ** 6), eps))
     bad = []
+    counts = {}
     start = threading.Barrier(case["threads"])
+    stop = threading.Event()
+    wthread = None
+    scratch = None
+    if case.get("writer"):
+        import numpy as np
+        from vlib import rfharness
+        scratch = rfharness.scratch_dir("c03w")
+        os.makedirs(os.path.join(scratch, "ch0"))
+
+        def record():
+            with rfharness.quiet_fds():
+                w = digital_rf.DigitalRFWriter(os.path.join(scratch, "ch0"), np.int16, 1, 1, 1700000000 * 1000, 1000, 1, uuid_str="c03",
+                                               is_complex=False, num_subchannels=1, is_continuous=False, marching_periods=False)
+            arr = np.zeros(3, dtype=np.int16)
+            k = 0
+            try:
+                while not stop.is_set() and k < 5 * case.get("writes", 4000):
+                    w.rf_write(arr, k)  # three samples, then two skipped: a new 1 ms file every call
+                    k += 5
+            finally:
+                stop.set()  # the converting threads run for as long as the recording lasts
+                w.close()
+
+        wthread = threading.Thread(target=record)
+        wthread.start()
 
     def work(t):
         tl = case["tuples"]
         start.wait()
-        for i in range(case["iters"]):
+        i = -1
+        while True:
+            i += 1
+            if (i >= case["iters"] and wthread is None) or (wthread is not None and stop.is_set()) or i >= 50 * case["iters"]:
+                counts[t] = i
+                return
             j = (i + t) % len(tl)
             got = digital_rf.get_unix_time(*tl[j])
             if got != exp[j]:
@@ -233,7 +302,12 @@ def _run_threads(case, res):
         t.start()
     for t in ths:
         t.join()
-    res.evaluations = case["threads"] * case["iters"]
+    if wthread is not None:
+        stop.set()
+        wthread.join()
+        shutil.rmtree(scratch, ignore_errors=True)
+        res.cls("concurrent-recording")
+    res.evaluations = sum(counts.values()) if counts else case["threads"] * case["iters"]
     res.nontrivial = True
     res.cls("concurrent-callers")
     if bad:
@@ -247,6 +321,9 @@ def run_case(case):
         return res
     if "threads" in case:
         _run_threads(case, res)
+        return res
+    if "calendar" in case:
+        _run_calendar(case, res)
         return res
     k, n, d = case["k"], case["n"], case["d"]
     check_tuple(k, n, d, case["s"], case["ps"], res)
@@ -263,7 +340,7 @@ def run_case(case):
 
 
 def shrink_candidates(case):
-    if "fuzz_hex" in case or "threads" in case:
+    if "fuzz_hex" in case or "threads" in case or "calendar" in case:
         return
     for key in ("k", "s", "ps", "n", "d"):
         v = case[key]
